@@ -1828,6 +1828,11 @@ ws_listener_listen(void *arg)
 		nni_mtx_unlock(&l->mtx);
 		return (NNG_ESTATE);
 	}
+	if (l->server == NULL) {
+		// an earlier attempt to listen failed and released the server
+		nni_mtx_unlock(&l->mtx);
+		return (NNG_ECLOSED);
+	}
 
 	if ((rv = nni_http_server_add_handler(l->server, l->handler)) !=
 	    NNG_OK) {
@@ -2084,7 +2089,7 @@ ws_listener_set(
 	nng_err          rv;
 
 	rv = nni_setopt(ws_listener_options, name, l, buf, sz, t);
-	if (rv == NNG_ENOTSUP) {
+	if ((rv == NNG_ENOTSUP) && (l->server != NULL)) {
 		rv = nni_http_server_set(l->server, name, buf, sz, t);
 	}
 
@@ -2104,7 +2109,8 @@ ws_listener_get(
 	nng_err          rv;
 
 	rv = nni_getopt(ws_listener_options, name, l, buf, szp, t);
-	if (rv == NNG_ENOTSUP) {
+	if ((rv == NNG_ENOTSUP) && (l->server != NULL)) {
+		// (the server is gone after a failed listen)
 		rv = nni_http_server_get(l->server, name, buf, szp, t);
 	}
 	return (rv);
@@ -2114,6 +2120,9 @@ static nng_err
 ws_listener_get_tls(void *arg, nng_tls_config **cfgp)
 {
 	nni_ws_listener *l = arg;
+	if (l->server == NULL) {
+		return (NNG_ECLOSED);
+	}
 	return (nni_http_server_get_tls(l->server, cfgp));
 }
 
@@ -2121,6 +2130,9 @@ static nng_err
 ws_listener_set_tls(void *arg, nng_tls_config *cfg)
 {
 	nni_ws_listener *l = arg;
+	if (l->server == NULL) {
+		return (NNG_ECLOSED);
+	}
 	return (nni_http_server_set_tls(l->server, cfg));
 }
 
